@@ -7,6 +7,7 @@ compared as a whole and never used in arithmetic, same-residue test by full iden
 from __future__ import annotations
 
 import ast
+import copy
 import json
 import os
 from typing import List
@@ -106,7 +107,30 @@ def gap_count_use(fn: ast.AST, root: ast.BinOp, par: dict, fm) -> "dict | None":
             problems.append("its value is used other than as a count (range, repetition of a constant sequence, comparison)")
     # consecutive members of one sequence
     pair = None
+    seq_name = None
+    # by value: whatever expression pairs them up (zip(S, S[1:]), zip([None] + S, S), zip(S[:-1], S[1:]), pairwise(S) ...) is
+    # evaluated on a list of four distinct members: every (b, a) it yields must be (S[k-1], S[k]) (or (None, S[0]))
     for n in astq.walk_no_nested(fn):
+        if isinstance(n, (ast.For, ast.comprehension)) and isinstance(n.target, ast.Tuple) and [e.id if isinstance(e, ast.Name) else None for e in n.target.elts] == [b_, a_]:
+            free = sorted({x.id for x in ast.walk(n.iter) if isinstance(x, ast.Name)} - {"zip", "list", "tuple", "itertools", "pairwise", "len", "range", "None"})
+            if len(free) != 1:
+                continue
+            S = ["s0", "s1", "s2", "s3"]
+            try:
+                from sa.consteval import Folder
+
+                env = {free[0]: list(S)}
+                if "pairwise" in norm(n.iter):
+                    env["pairwise"] = lambda xs: list(zip(list(xs), list(xs)[1:]))
+                got = list(Folder(None, "tertiary", env).fold(ast.fix_missing_locations(copy.deepcopy(n.iter)))) if "itertools" not in norm(n.iter) else None
+            except Exception:
+                got = None
+            if got and all(isinstance(g, tuple) and len(g) == 2 for g in got) and all((g[1] in S and ((S.index(g[1]) > 0 and g[0] == S[S.index(g[1]) - 1]) or (S.index(g[1]) == 0 and g[0] is None))) for g in got) and [g[1] for g in got if g[0] is not None] == S[1:]:
+                pair = f"{norm(n.iter)}"
+                seq_name = free[0]
+    for n in astq.walk_no_nested(fn):
+        if pair is not None:
+            break
         if isinstance(n, (ast.For, ast.comprehension)) and isinstance(n.target, ast.Tuple):
             names = [e.id if isinstance(e, ast.Name) else None for e in n.target.elts]
             m = astq.match(n.iter, "zip(S_, S_[1:])")
@@ -159,6 +183,20 @@ def gap_count_use(fn: ast.AST, root: ast.BinOp, par: dict, fm) -> "dict | None":
     if not any(norm(g.test) == "self.find_gaps" and g.polarity for g in fs):
         problems.insert(0, "it is not guarded by self.find_gaps")
     same = any((norm(g.test) in (f"{a_}.chain != {b_}.chain", f"{b_}.chain != {a_}.chain") and not g.polarity) or (norm(g.test) in (f"{a_}.chain == {b_}.chain", f"{b_}.chain == {a_}.chain") and g.polarity) for g in fs)
+    if not same and seq_name is not None:
+        # the sequence is one group of itertools.groupby(..., key=<the chain>): all of its members are of one chain
+        d = [v for s2, v in astq.assignments(fn, seq_name) if v is not None]
+        g = d[0] if len(d) == 1 else None
+        if isinstance(g, ast.Call) and isinstance(g.func, ast.Name) and g.func.id in ("list", "tuple") and len(g.args) == 1:
+            g = g.args[0]
+        gname = g.id if isinstance(g, ast.Name) else seq_name
+        for n in astq.walk_no_nested(fn):
+            if isinstance(n, (ast.For, ast.comprehension)) and isinstance(n.target, ast.Tuple) and len(n.target.elts) == 2 and isinstance(n.target.elts[1], ast.Name) and n.target.elts[1].id == gname:
+                m = astq.match(n.iter, "itertools.groupby(S_, key=K_)") or astq.match(n.iter, "groupby(S_, key=K_)")
+                if m and isinstance(m["K_"], ast.Lambda) and len(m["K_"].args.args) == 1 and norm(m["K_"].body) == f"{m['K_'].args.args[0].arg}.chain":
+                    same = True
+                elif m and norm(m["K_"]) in ("operator.attrgetter('chain')", "attrgetter('chain')"):
+                    same = True
     if not same:
         problems.append("the two residues are not known to be of one chain at that point")
     return {"core": norm(core), "pair": pair, "use": use, "problems": problems}
